@@ -30,8 +30,9 @@ EVIDENCE = {
         'processed is not counted as "retransmitted after the answer" (the two threads share no lock by design)',
         'a packet handed to the link by a send_packet call that began before close_link was called is not counted as '
         'transmitted on a closed link',
-        'simultaneously pending requests have distinct patterns (two requests with the same pattern are indistinguishable '
-        'to the library by design)',
+        'requests pending at the same time may have the identical pattern (40 % of the drawn collisions are kept): each is '
+        'retransmitted until a packet matching the pattern is processed, and that packet answers all of them (the statement '
+        'read per request)',
         'timing clause: with stalls enabled a retransmission may be late by the stall window per scheduling decision; '
         'slack 0.15 s is used in those runs, 1 us otherwise',
     ],
@@ -86,10 +87,10 @@ def directed(tier):
     plans = []
     rng = random.Random(4242)
     dev = wgen.gen_device(rng, n_log=1, n_param=1, version=10, mems=[])
-    step = 0.0005
+    step = 0.0005 if tier == 'quick' else 0.0001
     n = 0
-    for timeout in (0.05, 0.2):
-        for i in range(-4, 5):
+    for timeout in ((0.05, 0.2) if tier == 'quick' else (0.05, 0.1, 0.2, 0.5)):
+        for i in (range(-4, 5) if tier == 'quick' else range(-25, 26)):
             n += 1
             plans.append({'seed': 920000 + n, 'scenario': 'directed-delay-around-timer',
                           'knobs': {'line_mean': 0, 'p_stall': 0.0, 'needs_resending': True, 'lat': (0.001, 0.001),
